@@ -16,6 +16,11 @@ fn corpus() -> Vec<(Model, Vec<VarDecl>)> {
     out.push((build_model(OptimizationType::Min, var("b"), vec![Constraint::new(Exp::Abs(b(sub(var("b"), num(1.0)))), Comparison::LessOrEqual, num(0.0), "".into())], &dd), dd));
     let dd = vec![d("x", VariableType::IntegerRange(0, 3))];
     out.push((build_model(OptimizationType::Min, var("x"), vec![Constraint::new(Exp::Abs(b(sub(var("x"), num(0.5)))), Comparison::LessOrEqual, num(0.0), "".into())], &dd), dd));
+    // a genuine coefficient far below every tolerance on a variable with a huge range: its term still counts in the row's bounds
+    let dd = vec![d("x", VariableType::Real(-1000.0, 1000.0)), d("y", VariableType::Real(-1.0e12, 0.0))];
+    out.push((build_model(OptimizationType::Max, var("x"), vec![Constraint::new(bin(BinOp::Add, var("x"), bin(BinOp::Mul, num(1.0e-10), var("y"))), Comparison::LessOrEqual, num(1.0), "".into())], &dd), dd));
+    let dd = vec![d("x", VariableType::Real(-50.0, 50.0)), d("y", VariableType::Real(0.0, 4.0e11))];
+    out.push((build_model(OptimizationType::Min, var("x"), vec![Constraint::new(bin(BinOp::Sub, var("x"), bin(BinOp::Mul, var("y"), num(2.5e-10))), Comparison::GreaterOrEqual, num(-3.0), "tiny".into())], &dd), dd));
     // abs exact big-M, min/max selectors, one-sided
     let dd = vec![d("x", VariableType::Real(-3.0, 2.0)), d("y", VariableType::Real(-1.0, 4.0))];
     out.push((build_model(OptimizationType::Max, Exp::Abs(b(var("x"))), vec![Constraint::new(Exp::Max(vec![var("x"), var("y")]), Comparison::LessOrEqual, num(3.0), "cap".into())], &dd), dd.clone()));
